@@ -159,6 +159,7 @@ func lockStr(m int) string {
 type LockClass struct {
 	Lock     int // LN, LR or LX at dispatch
 	Write    bool
+	WriteVar *types.Var        // the flag the arm sets
 	Gates    map[string]bool   // error strings returned by gates in the arm
 	GateKind map[string]string // error string → shape of the guarding condition (follower, readonly, catchingup, other)
 	Returns  []string          // error strings/variables returned unconditionally by the arm
@@ -300,11 +301,20 @@ func (p *Program) interpretLockArm(fn *FuncInfo, ss *strSwitch, c *strClause) *L
 				}
 			case *ast.AssignStmt:
 				if len(s.Lhs) == 1 && len(s.Rhs) == 1 {
-					if id, ok := s.Lhs[0].(*ast.Ident); ok && id.Name == "write" {
-						if tv, ok := info.Types[s.Rhs[0]]; ok && tv.Value != nil && tv.Value.Kind() == constant.Bool {
-							lc.Write = constant.BoolVal(tv.Value)
-						} else {
-							lc.Problem = "write flag assigned a non-constant"
+					// the write flag: the boolean local of the host that the arms set to a constant (by role, not by name)
+					if id, ok := s.Lhs[0].(*ast.Ident); ok {
+						if v, isVar := info.ObjectOf(id).(*types.Var); isVar && !v.IsField() {
+							if b, isB := v.Type().Underlying().(*types.Basic); isB && b.Kind() == types.Bool {
+								if tv, ok := info.Types[s.Rhs[0]]; ok && tv.Value != nil && tv.Value.Kind() == constant.Bool {
+									lc.Write = constant.BoolVal(tv.Value)
+									if lc.WriteVar != nil && lc.WriteVar != v {
+										lc.Problem = "two different boolean flags are set in the lock arm"
+									}
+									lc.WriteVar = v
+								} else {
+									lc.Problem = "write flag assigned a non-constant"
+								}
+							}
 						}
 					}
 				}
